@@ -205,7 +205,7 @@ def pred_fft(c, verbose=False):
             return False, f'Wavefront.focus() with its default Q changes the energy by a factor {energy(wd.data) / E0:.12g}', {}
         ok, err = close(wb.data, np.asarray(f, dtype=complex), at)
         if verbose:
-            print(f'  Wavefront: max |unfocus(focus(wf)) - wf| = {err:.3g}; dx {dx_} -> {w1.dx:.6g} -> {wb.dx:.6g}')
+            print(f'  Wavefront: max |unfocus(focus(wf)) - wf| = {err:.3g}; dx {dx_} -> {_sc(w1.dx):.6g} -> {_sc(wb.dx):.6g}')
         if not ok or wb.space != 'pupil' or abs(wb.dx - dx_) > 1e-12 * dx_ or wb.wavelength != wvl_:
             return False, (f'Wavefront.unfocus(Wavefront.focus(wf, Q=1), Q=1) != wf: max err {err:.3g}, space {wb.space!r}, '
                            f'dx {wb.dx!r} (was {dx_})'), {}
